@@ -44,8 +44,12 @@ def _c05(name):
         # --- discarding (contract C02): S1 = S0 minus certified; certificate witnesses come from the pessimistic set
         PS = z3.Const("PS", SM.SETSORT)
         S1 = z3.Const("S1", SM.SETSORT)
-        disc = z3.And(set_is(PS, sp.pess(S0, P0, REG)),
-                      set_is(S1, lambda i: z3.And(z3.Select(S0, i), z3.Not(sp.cert_vogp(PS, REG, sl)(i)))))
+        # what the lemma consumes of discarding() (obligations safe/..., mono/... of C02/<algo>.discarding, discharged as
+        # dependencies of this check): S only shrinks; a design leaves S only when some OTHER ACTIVE design's region dominates
+        # its region up to the slack (that the witness is moreover pessimistic-Pareto is not needed here)
+        weak_cert = lambda i: z3.Exists([y], z3.And(active(y), y != i, DOM(A.order, z3.Select(REG, i), z3.Select(REG, y), sl)))
+        disc = z3.And(z3.ForAll([e], z3.Implies(z3.Select(S1, e), z3.Select(S0, e))),
+                      z3.ForAll([e], z3.Implies(z3.And(z3.Select(S0, e), z3.Not(z3.Select(S1, e))), weak_cert(e))))
         J2 = lambda Sx, Px: z3.ForAll([x], z3.Implies(z3.And(x >= 0, x < A.N, iso(x), z3.Or(z3.Select(S0, x), z3.Select(P0, x))), z3.Or(z3.Select(Sx, x), z3.Select(Px, x))))
         t.axiom("H-valid: the true mean of every active design lies in its displayed region", Hvalid)
         t.assume(M1, M2)
@@ -55,7 +59,12 @@ def _c05(name):
         # --- epsiloncovering (contract C03)
         S2, P2 = z3.Consts("S2 P2", SM.SETSORT)
         new = sp.new(S0, [S0, P0], REG, sl)
-        cov = z3.And(set_is(S2, lambda i: z3.And(z3.Select(S0, i), z3.Not(new(i)))), set_is(P2, lambda i: z3.Or(z3.Select(P0, i), new(i))))
+        # consumed of epsiloncovering() (safe/..., mono/... of C03/<algo>.epsiloncovering)
+        cov = z3.And(z3.ForAll([e], z3.Implies(z3.And(z3.Select(P2, e), z3.Not(z3.Select(P0, e))), new(e))),
+                     z3.ForAll([e], z3.Implies(z3.Select(S0, e), z3.Or(z3.Select(S2, e), z3.Select(P2, e)))),
+                     z3.ForAll([e], z3.Implies(z3.Select(S2, e), z3.Select(S0, e))),
+                     z3.ForAll([e], z3.Implies(z3.Select(P0, e), z3.Select(P2, e))),
+                     z3.ForAll([e], z3.Implies(z3.Select(P2, e), z3.Or(z3.Select(P0, e), z3.Select(S0, e)))))
         t.prove("J2:active_designs_stay_active_through_covering", z3.Implies(cov, z3.ForAll([x], z3.Implies(active(x), z3.Or(z3.Select(S2, x), z3.Select(P2, x))))))
         # J3: for p in P and any other still-active q: q does not dominate p by the slack or more
         J3 = lambda Sx, Px: z3.ForAll([p, q], z3.Implies(z3.And(z3.Select(Px, p), q != p, z3.Or(z3.Select(Sx, q), z3.Select(Px, q))), z3.Not(Tminus(q, p))))
